@@ -8,7 +8,7 @@ PROPS = {
     "C03": dict(units=["RAT", "COMPOUND", "TABLES"], standin=True, level="proof",
                 explanation="factor value law v' = v*scale(src)/scale(dst), apply_conversion, Rational::pow, prefix constants, conversion laws as lemmas; OP_CAST arm bounded"),
     "C04": dict(units=["COMPOUND", "EVALOPS"], standin=True, level="proof",
-                explanation="Compound::mul / reconstruct / inner_match / pow preserve (value*scale, dims); eval::{mul,div,pow}; bases_match assumed (FnMut closure through Iterator::all)"),
+                explanation="Compound::mul / reconstruct / inner_match / pow preserve (value*scale, dims); eval::{mul,div,pow}; bases_match verified after R15 (Iterator::all inlined)"),
     "C05": dict(units=["TABLES", "COMPOUND", "EVALUNIT"], standin=True, level="proof",
                 explanation="dimension closure and conversion fraction of each of the 78 derived units and the 21 prefix constants against standards.toml"),
     "C10": dict(units=["RAT", "EVALOPS"], standin=True, level="proof",
@@ -33,7 +33,7 @@ PROPS = {
 
 COMMON_TRUST = [
     "Verus 0.2026.09.13 + bundled Z3, rustc 1.98.1; single-file mode (no linking): every dependency type is a shim with assumed contracts",
-    "extraction rules of DESIGN.md §4: R1 attributes/doc comments stripped, visibility widened; R2 debug_assert -> static obligation; R3 break-value lowering; R4 `&a op &b` -> operator call; R5 for-desugaring; R6 outlining of iterator-adapter / fn-pointer expressions into assumed fns; R7 closure lifting; R8 nested fn hoisting; R9 trait-impl methods emitted as inherent methods / associated types spelled out; R10 type ascription; R11 fn renamed to dodge a Verus name clash",
+    "extraction rules of DESIGN.md §4: R1 attributes/doc comments stripped, visibility widened; R2 debug_assert -> static obligation; R3 break-value lowering; R4 `&a op &b` -> operator call; R5 for-desugaring; R6 outlining of iterator-adapter / fn-pointer expressions into assumed fns; R7 closure lifting; R8 nested fn hoisting; R9 trait-impl methods emitted as inherent methods / associated types spelled out; R10 type ascription; R11 fn renamed to dodge a Verus name clash; R12 match-arm guard / expression arm spelled as a block; R13 `mut` by-value parameter as an explicit local; R14 contract (ensures) written on a closure; R15 `iter.all(closure)` replaced by the body of the default method Iterator::all with the closure body at its single call (bases_match)",
     "BigRational viewed as `real`, BigInt as `int` (every operation used is closed on Q); i32/u32/usize arithmetic keeps its overflow obligations (discharged under the stated bounds, never treated as mathematical)",
 ]
 
@@ -49,9 +49,7 @@ SHIM_TRUST = {
     "shims/syntree_span.rs": "syntree::Span<u32> as plain data; LookupError / ParseIntError / syntree::Error opaque",
 }
 
-ITEM_TRUST = {
-    "fn bases_match": "bases_match (FnMut closure through Iterator::all, outside Verus): assumed `Some(m)` => m has the sign of power, |m| <= |power|, every base of the unit is a key of names and m copies fit; Kani/bounded stand-in",
-}
+ITEM_TRUST = {}
 
 
 def trusted_base(prop, trusted_items, rules, includes=()):
